@@ -666,10 +666,9 @@ def run_C12(res):
     res.count("mates_by_underpromotion", len(under))
     ps = under[: (40 if res.tier == "quick" else 800)] + ps
     minor = [l for l in run_driver(["feninw " + f for f in minor_piece_mates()]) if l not in ("PANIC", "bad-op")]
-    rnd.shuffle(minor)
+    random.Random(res.seed + 77).shuffle(minor)          # its own stream: the draws made for the other roots stay what they were
     minor = minor[: (40 if res.tier == "quick" else 400)]
     res.count("minor_piece_corner_mates", len(minor))
-    ps = minor + ps
     gs = games(res, 6 if res.tier == "quick" else 60, 80, 0, 200)
     cand = [p for g in gs for p in g]
     # mates in one met in playouts / test FENs as well
@@ -684,7 +683,8 @@ def run_C12(res):
     for p in ps[: (60 if res.tier == "quick" else 1000)]:
         edge.append(str(Pos(p).with_(halfmoves=rnd.choice([98, 98, 97, 90]))))
     res.count("roots_with_clock_90_to_98", len(edge))
-    ps = list(dict.fromkeys(ps + edge))
+    okm = in_domain(minor)
+    ps = list(dict.fromkeys(ps + edge + [p for p, o in zip(minor, okm) if o]))     # appended last: earlier roots keep their tables and depths
     roots = [(p, [Pos(p).hash]) for p in ps]
     tts = prefilled_tables(res, roots, rnd, depth=2)
     reqs = []
